@@ -200,3 +200,17 @@ M("c12-empty", "C12", "decoder/bds/__init__.py", '    if common.allzeros(msg):\n
 M("c12-both50", "C12", "decoder/bds/__init__.py", "        if abs(i60 - ias_) > 20:\n            return \"BDS50\"", "        if abs(i60 - ias_) > 20:\n            return \"BDS60\"")
 M("c12-temp44", "C12", "decoder/bds/bds44.py", "    if min(temp, temp2) > 60 or max(temp, temp2) < -80:", "    if min(temp, temp2) > 60 or max(temp, temp2) < -30:")
 M("c12-mrar", "C12", "decoder/bds/__init__.py", "        mask = [IS10, IS17, IS20, IS30, IS40, IS44, IS45, IS50, IS60]", "        mask = [IS10, IS17, IS20, IS30, IS40, IS45, IS44, IS50, IS60]")
+
+# ---- C14
+M("c14-guard23", "C14", "decoder/bds/bds05.py", '    if tc is None or tc < 9 or tc == 19 or tc > 22:', '    if tc is None or tc < 9 or tc == 19 or tc > 23:')
+M("c14-tc29", "C14", "decoder/bds/bds62.py", '    if common.typecode(msg) != 29:\n        raise RuntimeError(\n            "%s: Not a target state and status message, expecting TC=29" % msg\n        )\n\n    mb = common.hex2bin(msg)[32:]\n\n    subtype = common.bin2int(mb[5:7])\n\n    if subtype == 1:\n        raise RuntimeError(\n            "%s: ADS-B version 2 target state and status message does not"\n            " contain vertical mode, use vnav mode instead" % msg\n        )', '    mb = common.hex2bin(msg)[32:]\n\n    subtype = common.bin2int(mb[5:7])\n\n    if subtype == 1:\n        raise RuntimeError(\n            "%s: ADS-B version 2 target state and status message does not"\n            " contain vertical mode, use vnav mode instead" % msg\n        )')
+M("c14-tell-label", "C14", "decoder/__init__.py", '                    6: "Downed aircraft",\n', '')
+M("c14-idcode", "C14", "py_common.py", "    if df(msg) not in [5, 21]:", "    if df(msg) not in [5]:")
+M("c14-D12-regress", "C14", "decoder/__init__.py", '                    "IAS": "Indicated airspeed",\n', '')
+M("c14-D11-regress", "C14", "decoder/adsb.py", "    NIC = uncertainty.TC_NICv2_lookup[tc]", "    NIC = uncertainty.TC_NICv2_lookup[tc if tc != 22 else 23]")
+M("c14-route", "C14", "decoder/adsb.py", "    elif tc == 19:\n        return airborne_velocity(msg, source)", "    elif tc == 19:\n        return airborne_velocity(msg)")
+M("c14-pairroute", "C14", "decoder/adsb.py", "    elif 9 <= tc0 <= 18 and 9 <= tc1 <= 18:", "    elif 9 <= tc0 <= 18 and 9 <= tc1 <= 22:")
+M("c14-shape", "C14", "decoder/bds/bds62.py", '    if alt == 0:\n        return None, "N/A"', '    if alt == 0:\n        return None')
+M("c14-commb", "C14", "decoder/bds/bds17.py", '    capacity = ["BDS" + allbds[i] for i in idx]', '    capacity = ["BDS" + allbds[i + (i == 23)] for i in idx]')
+M("c14-uplink", "C14", "decoder/uplink.py", '        IC = ic_switcher.get(codeLabel, "")\n\n    if UF in', '        IC = ic_switcher[codeLabel]\n\n    if UF in')
+M("c14-nacv", "C14", "decoder/adsb.py", "    try:\n        HFOMr = uncertainty.NACv[NACv][\"HFOMr\"]\n        VFOMr = uncertainty.NACv[NACv][\"VFOMr\"]\n    except KeyError:", "    try:\n        HFOMr = uncertainty.NACv[NACv][\"HFOMr\"]\n        VFOMr = uncertainty.NACv[NACv][\"VFOMr\"]\n    except IndexError:")
